@@ -19,6 +19,26 @@ Theorem C08_restriction_rule : forall logindays badpost limlogins limbad,
 Proof. exact restriction_none_iff. Qed.
 Print Assumptions C08_restriction_rule.
 
+(* the same rule on the code's own fixed-width arithmetic (uint32 login-days, uint8 bad posts and limits, with every
+   conversion and every possible wrap-around written out in [restriction_reason_go], the function the decision table
+   runs), stated in days and without division: for EVERY value the four fields can hold, no limit refuses exactly when
+   the user has at least ten login-days per unit of the board's limit and bad posts + limit do not exceed 255. A limit
+   of 26..255 units (260..2550 days) is enforced like a small one *)
+Theorem C08_restriction_rule_days : forall logindays badpost limlogins limbad,
+  u32_ok logindays = true -> u8_ok badpost = true -> u8_ok limlogins = true -> u8_ok limbad = true ->
+  (restriction_reason_go logindays badpost limlogins limbad = ptttype.RESTRICT_REASON_NONE <->
+   10 * limlogins <= logindays /\ badpost + limbad <= 255).
+Proof. exact restriction_rule_days. Qed.
+Print Assumptions C08_restriction_rule_days.
+
+(* and which limit is named as the reason *)
+Theorem C08_restriction_reason_cases : forall logindays badpost limlogins limbad,
+  u32_ok logindays = true -> u8_ok badpost = true -> u8_ok limlogins = true -> u8_ok limbad = true ->
+  (logindays < 10 * limlogins -> restriction_reason_go logindays badpost limlogins limbad = ptttype.RESTRICT_REASON_NUMLOGIN_DAYS) /\
+  (10 * limlogins <= logindays -> 255 < badpost + limbad -> restriction_reason_go logindays badpost limlogins limbad = ptttype.RESTRICT_REASON_BADPOST).
+Proof. exact restriction_reason_cases. Qed.
+Print Assumptions C08_restriction_reason_cases.
+
 (* a new post is accepted only under the whole rule set (after the repair that added the limits check) *)
 Theorem C08_accept_implies_rules_new_post : forall now w st,
   fst (run (new_post_steps now w) st) = Accept -> may_write w = true.
@@ -68,9 +88,49 @@ Theorem C08_edit_owner : forall w a st, fst (run (edit_post_steps w a) st) = Acc
 Proof. exact edit_owner. Qed.
 Print Assumptions C08_edit_owner.
 
-(* every refusal of the four operations happens before the first write to the board index, the board directory
-   or the author's post counter ([frame] = those three; the only write that can precede a refusal is
-   checkCooldown's normalisation of an already expired cool-down word, which is outside the frame) *)
+(* the author test on the stored bytes (Owner field of the index entry: 14 bytes, user id: 13 bytes, both C strings):
+   it holds exactly when the two C strings are EQUAL as a whole, the file name is longer than three characters and the
+   article is not older than the account *)
+Theorem C08_is_file_owner_rule : forall owner uid fname firstlogin,
+  is_file_owner owner uid fname firstlogin = true <->
+  cprefix (fixlen OWNER_SZ owner) = cprefix (fixlen USERID_SZ uid) /\ 3 < cstrlen (fixlen FN_SZ fname) /\ firstlogin <= create_time fname.
+Proof. exact is_file_owner_iff. Qed.
+Print Assumptions C08_is_file_owner_rule.
+
+(* for ids as they occur (no NUL inside, fitting their field): only the very same id is the author ... *)
+Theorem C08_owner_same_id : forall owner uid fname firstlogin, id_ok OWNER_SZ owner -> id_ok USERID_SZ uid ->
+  is_file_owner owner uid fname firstlogin = true -> owner = uid.
+Proof. exact owner_exact. Qed.
+Print Assumptions C08_owner_same_id.
+
+(* ... in particular never a user whose id is a proper prefix of the author's (A1 / A10, SYSOP / SYSOP3, "A1." of an
+   external post) *)
+Theorem C08_owner_not_prefix : forall uid rest fname firstlogin, id_ok OWNER_SZ (uid ++ rest) -> id_ok USERID_SZ uid -> rest <> [] ->
+  is_file_owner (uid ++ rest) uid fname firstlogin = false.
+Proof. exact owner_not_prefix. Qed.
+Print Assumptions C08_owner_not_prefix.
+
+(* an accepted edit, the author test being the one above: the entry's owner field is exactly the editor's id, or the
+   editor is a sysop *)
+Theorem C08_edit_owner_id : forall w a st owner uid fname firstlogin,
+  a_owner a = is_file_owner owner uid fname firstlogin -> id_ok OWNER_SZ owner -> id_ok USERID_SZ uid ->
+  fst (run (edit_post_steps w a) st) = Accept -> owner = uid \/ w_sysop w = true.
+Proof. exact edit_owner_id. Qed.
+Print Assumptions C08_edit_owner_id.
+
+(* a cross-post out of a board that logs forwards (BRD_CPLOG) also writes a line into the SOURCE article: it is
+   accepted only if the caller may read the source board and passes its posting rules and limits *)
+Theorem C08_accept_implies_source_rules_cross_post : forall now ws wt a st,
+  fst (run (cross_post_steps now ws wt a) st) = Accept -> a_cplog a = true ->
+  w_readable ws = true /\ posting_rules ws = true /\ limits_ok ws = true.
+Proof. exact accept_implies_source_rules_cross_post. Qed.
+Print Assumptions C08_accept_implies_source_rules_cross_post.
+
+(* every refusal of the four operations — whatever its reason, including a cross-post refused by the rules of its
+   SOURCE board — happens before the first write to the target's index, the target's directory, the author's post
+   counter and ANY OTHER board ([frame] = those four: the fourth counts the writes to the ALLPOST / ALLHIDPOST /
+   NEWIDPOST / UNANONYMOUS log boards and to the source article and index of a cross-post; the only write that can
+   precede a refusal is checkCooldown's normalisation of an already expired cool-down word, outside the frame) *)
 Theorem C08_refusal_no_trace : forall now w ws a st,
   (fst (run (new_post_steps now w) st) <> Accept -> frame (snd (run (new_post_steps now w) st)) = frame st) /\
   (fst (run (recommend_steps now w a) st) <> Accept -> frame (snd (run (recommend_steps now w a) st)) = frame st) /\
